@@ -222,13 +222,15 @@ def _cross_file(job):
     plus = head + data
     out = {}
     both = runs.execute([("a_plus.md", plus), ("b_doc.md", data)], ["scan", "a_plus.md", "b_doc.md"], keep_contents=False)
+    if both["exc"] or both["code"] not in (0, 1) or "Error" in both["err"].replace("INLINE", ""):
+        return None            # the copy with pragmas does not scan (the run stops there): C01 / C07's business, no observation about b
     got = sorted(l for l in both["out"].splitlines() if l.startswith("b_doc.md:"))
     want = sorted(l for l in solo["out"].splitlines() if l.startswith("b_doc.md:"))
     if got != want:
         out["scan"] = {"solo": want[:8], "after_pragma_file": got[:8]}
     fsolo = runs.execute([("b_doc.md", data)], ["fix", "b_doc.md"])
     fboth = runs.execute([("a_plus.md", plus), ("b_doc.md", data)], ["fix", "a_plus.md", "b_doc.md"])
-    if fsolo["code"] in (0, 3) and fboth["code"] in (0, 3) and fsolo["contents"].get("b_doc.md") != fboth["contents"].get("b_doc.md"):
+    if fsolo["code"] in (0, 3) and fboth["code"] in (0, 3) and "Error" not in fboth["err"] and fsolo["contents"].get("b_doc.md") != fboth["contents"].get("b_doc.md"):
         out["fix"] = {"solo": (fsolo["contents"].get("b_doc.md") or b"")[:300].decode("utf-8", "replace"),
                       "after_pragma_file": (fboth["contents"].get("b_doc.md") or b"")[:300].decode("utf-8", "replace")}
     return out or {"ok": True}
